@@ -247,14 +247,21 @@ def build(spec, wbs_kwargs=None):
 # ------------------------------------------------------------------------------ calendars / resources
 
 @st.composite
-def calendar_spec(draw, dead=False, backward=False):
+def calendar_spec(draw, dead=False, backward=False, tod=False):
     kinds = ['default', 'weekly', 'weekly', 'weeklydict', 'direct_or_weekly', 'scaled', 'minus', 'bounded',
              'sum', 'fixed', 'div']
+    if tod:
+        # validity bounds with a time of day (crash-freedom only: "that day's capacity" has two values here)
+        kinds = ['bounded_tod', 'fixed_tod']
     if dead:
         kinds = ['empty_direct', 'zero_weekly', 'zero_fixed', 'ended', 'late_start', 'zero_scaled', 'scarce_direct', 'scarce_direct']
     kind = draw(st.sampled_from(kinds))
     units = draw(st.sampled_from([8, 8, 6, 1, 0.5, 2.5, 7.5, 24]))
     days = sorted(draw(st.sets(st.integers(0, 6), min_size=1)))
+    if kind == 'bounded_tod':
+        return ['bounded_tod', days, units, draw(st.integers(-5, 38)), draw(st.sampled_from([9, 13, 23])), draw(st.one_of(st.none(), st.integers(5, 45)))]
+    if kind == 'fixed_tod':
+        return ['fixed_tod', units, draw(st.integers(-5, 38)), draw(st.sampled_from([9, 13, 23])), draw(st.one_of(st.none(), st.integers(5, 45)))]
     if kind == 'default':
         return ['default']
     if kind == 'weekly':
@@ -302,12 +309,15 @@ def calendar_spec(draw, dead=False, backward=False):
     raise AssertionError(kind)
 
 
-def _direct(over):
+def _direct(over, handles=None):
     from pjplan import DirectCalendar
-    return DirectCalendar({BASE + timedelta(days=int(d)): u for d, u in over.items()})
+    dc = DirectCalendar({BASE + timedelta(days=int(d)): u for d, u in over.items()})
+    if handles is not None:
+        handles.append((dc, {BASE + timedelta(days=int(d)): u for d, u in over.items()}))
+    return dc
 
 
-def make_calendar(cs):
+def make_calendar(cs, handles=None):
     from pjplan import WeeklyCalendar, FixedCalendar
     k = cs[0]
     if k == 'default':
@@ -317,19 +327,27 @@ def make_calendar(cs):
     if k == 'weeklydict':
         return WeeklyCalendar(units_per_day={int(a): b for a, b in cs[1].items()})
     if k == 'direct':
-        return _direct(cs[1])
+        return _direct(cs[1], handles)
     if k == 'direct_or_weekly':
-        return _direct(cs[1]) | WeeklyCalendar(days=list(cs[2]), units_per_day=cs[3])
+        return _direct(cs[1], handles) | WeeklyCalendar(days=list(cs[2]), units_per_day=cs[3])
     if k == 'scaled':
         return WeeklyCalendar(days=list(cs[1]), units_per_day=cs[2]) * cs[3]
     if k == 'div':
         return WeeklyCalendar(days=list(cs[1]), units_per_day=cs[2]) / cs[3]
     if k == 'minus':
-        return WeeklyCalendar(days=list(cs[1]), units_per_day=cs[2]) - _direct(cs[3])
+        return WeeklyCalendar(days=list(cs[1]), units_per_day=cs[2]) - _direct(cs[3], handles)
     if k == 'sum':
-        return WeeklyCalendar(days=list(cs[1]), units_per_day=cs[2]) + _direct(cs[3])
+        return WeeklyCalendar(days=list(cs[1]), units_per_day=cs[2]) + _direct(cs[3], handles)
     if k == 'fixed':
         return FixedCalendar(cs[1])
+    if k == 'bounded_tod':
+        start = BASE + timedelta(days=cs[3], hours=cs[4])
+        end = None if cs[5] is None else BASE + timedelta(days=cs[3] + cs[5], hours=12)
+        return WeeklyCalendar(start=start, end=end, days=list(cs[1]), units_per_day=cs[2])
+    if k == 'fixed_tod':
+        start = BASE + timedelta(days=cs[2], hours=cs[3])
+        end = None if cs[4] is None else BASE + timedelta(days=cs[2] + cs[4], hours=12)
+        return FixedCalendar(cs[1], start, end)
     if k == 'bounded':
         # bounds are day-aligned: start at a midnight, end one microsecond before a midnight, so that
         # "that day's capacity" has one value whatever time of day the scheduler asks for
@@ -381,11 +399,11 @@ def res_name(key):
     return None if key == 'None' else key
 
 
-def make_resources(rs):
+def make_resources(rs, handles=None):
     from pjplan import Resource
     out = []
     for key, cs in rs.items():
-        cal = make_calendar(cs)
+        cal = make_calendar(cs, handles)
         n = res_name(key)
         out.append(Resource(n) if cal is None else Resource(n, cal))
     return out
